@@ -25,8 +25,10 @@ THEOREMS = [
     "KrroodVerif.SG.C14_partial_precise",
     "KrroodVerif.SG.C14_cex_recycled",
     "KrroodVerif.SG.C14_cex_dead_source",
+    "KrroodVerif.SG.C14_role_witness",
+    "KrroodVerif.SG.sim_addFact",
 ]
-MODEL_FUNCTION = ("SG.step / SG.ensure / SG.relationExists / SG.addEdge / SG.addFact / SG.removeNode / SG.sweep "
+MODEL_FUNCTION = ("SG.step / SG.ensure / SG.relationExists / SG.addEdge / SG.addFact (incl. the inference through role takers: SG.inferTakerSupers, SG.inferInverse, Heap.takerOf, SG.ensureSt) / SG.removeNode / SG.sweep "
                   "(Model/SymbolGraph.lean), run under the LIFO allocator by Drive/SG.lean")
 TRUSTED = [
     "Lean 4.33 kernel; axioms of each theorem listed under coverage.theorems",
